@@ -6,11 +6,17 @@ CONSTANTS MIN = 4
           MaxRows = 2
           ByteVals = {1, 2}
           Ns = {1, 2, 3}
+          MaxEx = 1
+          InPlace = FALSE
+          IdxAll = TRUE
+          Memo = FALSE
+          EmitShapes = FALSE
 INIT Init
 NEXT Next
 INVARIANT Safety
 INVARIANT SameRows
 INVARIANT NothingBeforeTheGate
 INVARIANT Complete
+INVARIANT HistLen
 INVARIANT Emit
 CHECK_DEADLOCK FALSE
